@@ -155,6 +155,12 @@ partial def ceval (env : List (String × Val)) : Sexp → M Val
     let y ← opt b.int? "remainder operand"
     if y == 0 then throw (.constError "remainder by zero") else
     pure (.f32 (f32OfI32 (BitVec.ofInt 32 (Int.tmod x y))))
+  | .list [.atom "frem", a, b] => do
+    -- f32 `%` on half-integral operands a/2, b/2: e1 - e2 * trunc(e1 / e2), exact on these values
+    let x ← opt a.int? "remainder operand"
+    let y ← opt b.int? "remainder operand"
+    if y == 0 then throw (.constError "remainder by zero") else
+    pure (.f32 (fbin (· * ·) (f32OfI32 (BitVec.ofInt 32 (Int.tmod x y))) 0x3F000000#32))
   | .list [.atom "var", .atom n, _] => opt ((env.find? (·.1 == n)).map (·.2)) ("constant " ++ n)
   | .list [.atom "swz", _, b, .atom name] => do
     let bv ← ceval env b
